@@ -61,6 +61,18 @@ func (li *Language) Match(input MatchInput) (bool, error) {
 	return result == language.TRUE, nil
 }
 
+// CheckSyntax parses a condition, filter or key condition expression without evaluating it
+func (li *Language) CheckSyntax(expression string) error {
+	p := language.NewParser(language.NewLexer(expression))
+	p.ParseConditionalExpression()
+
+	if len(p.Errors()) != 0 {
+		return fmt.Errorf("%w: %s", ErrSyntaxError, strings.Join(p.Errors(), "\n"))
+	}
+
+	return nil
+}
+
 func buildAliases(input UpdateInput) map[string]string {
 	aliases := map[string]string{}
 	for k, v := range input.Aliases {
